@@ -193,3 +193,52 @@ def kind_of(expr):
     if e in ("NEGZ", "NINF", "math/inf", "math/nan"):
         return "number-special"
     return "other"
+
+
+# ---------------------------------------------------------------- model correspondence cases (driver jm_c15 vs implementation)
+EXACT = ["ADD", "SUBTRACT", "MULTIPLY", "GT", "LT", "GTE", "LTE", "EQ", "NEQ"]      # Spec.DP computes these on integers
+D_INTS = [0, 1, -1, 2, 3, 5, 7, -7, 100, 126, 127, 128, 129, -127, -128, -129, -130, 200]
+
+
+def model_cases(rng, names, per):
+    """[(tagName, janet name, [(kind 'v'|'c', token)])]; token = int | nil | true | false | T<id>"""
+    out = []
+    for tag in sorted(names):
+        for n in range(0, 7):
+            for _ in range(1 if n == 0 else per):
+                ops = []
+                for i in range(n):
+                    kind = "c" if rng.chance(1, 2) else "v"
+                    r = rng.below(100)
+                    if tag in EXACT:
+                        if r < 70:
+                            tok = str(pick(rng, D_INTS))
+                        elif r < 85:
+                            tok = "T%d" % i if tag in ("ADD", "SUBTRACT", "MULTIPLY") else pick(rng, ["nil", "true", "false"])
+                        else:
+                            tok = pick(rng, ["nil", "true", "false"])
+                    else:
+                        # no integer arithmetic in the model for these: keep the accumulator a table (method path) or an error
+                        if i == 0 or kind == "v":
+                            tok = "T%d" % i if r < 85 else "nil"
+                        else:
+                            tok = str(pick(rng, [0, 1, 2, 3, 127, -128, 128, -129]))
+                    ops.append((kind, tok))
+                if tag == "SUBTRACT" and n == 1 and ops[0][1] == "0":
+                    ops[0] = (ops[0][0], "1")      # integers of the Lean model have no -0 (x * -1 on the doubles of the VM gives -0)
+                if tag not in EXACT and n == 1 and not ops[0][1].startswith("T"):
+                    ops[0] = (ops[0][0], "T0")
+                out.append((tag, names[tag], ops))
+    return out
+
+
+def model_janet_line(idx, case):
+    tag, name, ops = case
+    def jv(tok):
+        return '(mk-tab "%s")' % tok[1:] if tok.startswith("T") else tok
+    return "(D %d %s [%s] (fn [] [%s]))" % (idx, name, " ".join(":" + k for k, t in ops), " ".join(jv(t) for k, t in ops))
+
+
+def model_driver_line(case):
+    tag, name, ops = case
+    return ("call %s %s" % (tag, " ".join("%s:%s" % (k, t) for k, t in ops))).strip()
